@@ -69,9 +69,11 @@ def build_root(root):
         od = _out_dict_for(model, route == "out_hidden")
         f = fsa.FSA(od, start_vertices=[0], graph_dict=False)
         return f, model, U
-    if route == "free":
+    if route in ("free", "free_iter", "free_tuple", "free_keys"):
         gens = list(arg)
-        f = fsa.free_automaton(gens)
+        # the parameter is documented as an iterable of strings
+        handed = {"free": gens, "free_iter": iter(gens), "free_tuple": tuple(gens), "free_keys": dict.fromkeys(gens).keys()}[route]
+        f = fsa.free_automaton(handed)
         allg = gens + [g.swapcase() for g in gens]
         E = [(g, h, h) for g in [""] + allg for h in allg if h.swapcase() != g]
         return f, M([""] + allg, E), U
@@ -425,6 +427,8 @@ def run(ctx):
     roots.append([["ctor", "out_hidden", [(0, 1, "a"), (0, 1, "b")], U]])
     roots.append([["ctor", "deepcopy", ROOT_GRAPHS[2], U]])
     roots.append([["ctor", "free", ["a"], {"V": ["", "a", "A"], "L": ["a", "A"]}]])
+    for r in ("free_iter", "free_tuple", "free_keys"):
+        roots.append([["ctor", r, ["a"], {"V": ["", "a", "A"], "L": ["a", "A"]}]])
     roots.append([["ctor", "kbmag", [["a", "b"], [[2, 0], [2, 1]]], {"V": [1, 2, 3], "L": ["a", "b"]}]])
     roots.append([["ctor", "builtin", "f2.wa", {"V": [1, 2, 3], "L": ["a", "b"]}]])
     dom = {"vertices": U["V"], "labels": U["L"], "roots": len(roots),
